@@ -225,3 +225,105 @@ def c17(work, tier, seed, replay):
 
 
 CHECKS["C17"] = c17
+
+
+# ----------------------------------------------------------------------------- C19
+
+def c19(work, tier, seed, replay):
+    import checks_bastion as cb
+    rep = Report("C19", tier, seed, "exploration")
+    rng = random.Random(seed)
+    build_driver()
+    # (1) the hostile-server menu, enumerated by TLC from Totality.tla
+    r = require_ok(tlc(work, "Totality", cfg_text(spec="Spec", constants={}, invariants=["OnlyAllowed", "EmitScen"], properties=["Total"]), name="MC_Totality", timeout=600),
+                   "design check Totality")
+    rep.add_model("Totality (5 feeders x 2 witness states x 16 checkpoint classes x 7 data classes)", r)
+    scens = [json.loads(x) for x in sorted(set(r.prints("HOSTILE")))]
+    if tier == "quick":
+        must = [s for s in scens if s["cp"].startswith("size2") and s["data"] == "valid"]
+        rest = [s for s in scens if s not in must]
+        rng.shuffle(rest)
+        scens = must + rest[:220]
+    hp, ht = work.path("hostile.jsonl"), work.path("hostile.ndjson")
+    open(hp, "w").write("\n".join(json.dumps(s) for s in scens) + "\n")
+    o, dt = run_driver(["hostile", "-in", hp, "-out", ht, "-seed", str(seed), "-workers", str(NCPU * 2)], timeout=6000)
+    rep.notes.append(o.strip() + " (%.0fs)" % dt)
+    # (2) seeded random / mutated bytes to the two text parsers
+    pt = work.path("parsefuzz.ndjson")
+    o, dt = run_driver(["parsefuzz", "-out", pt, "-n", "20000" if tier == "quick" else "300000", "-seed", str(seed)], timeout=3000)
+    rep.notes.append(o.strip())
+    tp = work.path("cycles.ndjson")
+    open(tp, "w").write(open(ht).read() + open(pt).read())
+    events = read_ndjson(tp)
+    fails = []
+    lines = open(tp).read().splitlines(True)
+    for start in range(0, len(lines), 150000):
+        cp = work.path("cyc-chunk.ndjson")
+        open(cp, "w").writelines(lines[start:start + 150000])
+        jr = tlc(work, "Trace_Total", cfg_text(spec="JSpec", constants={"TraceFile": cp}, action_constraints=["Monitor"], postcondition="Done"), name="judge-total", workers=1, timeout=3600, heap="12g")
+        if not jr.ok:
+            raise Inconclusive("totality judge failed: %s\n%s" % (jr.error or jr.violated, jr.out[-3000:]))
+        for f in map(json.loads, jr.prints("FAIL")):
+            fails.append(["FAIL", f["id"], f["name"], f["i"] + start, f["run"], f["k"], f["sig"]])
+        os.remove(cp)
+    seqfam.settle(rep, "C19", fails, events, {})
+    # (3) the add-checkpoint endpoint: one valid request per verdict class and body class (TLC-emitted transitions of MC_Bastion) plus byte-level mutations
+    c = cb.bconsts("quick", MaxSize=2, Olds={0, 1, 2, 3}, BadKinds={"random", "flip"})
+    cfg = cfg_text(spec="BSpec", constants=c, invariants=["TypeOK"], properties=["AnswersDocumented"], view="BView", action_constraints=["BEmit"])
+    br = require_ok(tlc(work, "MC_Bastion", cfg, name="MC_Bastion", timeout=1800), "design check MC_Bastion")
+    rep.add_model("MC_Bastion (documented statuses only; seeds of the endpoint fuzzing)", br)
+    edges = [e for e in map(json.loads, br.prints("EDGE")) if e["act"].get("kind") != "limited"]
+    by_pre = {}
+    for e in edges:
+        by_pre.setdefault(key(e["pre"]), []).append(e)
+    runs, n = [], 0
+    for k, es in by_pre.items():
+        setup = cb.tofu_posts(es[0]["pre"], c["NWitKeys"])
+        rng.shuffle(es)
+        for j in range(0, min(len(es), 120 if tier == "quick" else 100000), 40):
+            n += 1
+            runs.append({"id": "fz%d" % n, "limit": 100000, "steps": setup + [cb.post_step(e["act"]) for e in es[j:j + 40] if e["act"]["status"] != 200]})
+    rp, bt = work.path("fuzz-runs.jsonl"), work.path("fuzz.ndjson")
+    write_runs(rp, seqfam.params_of(c), runs)
+    o, dt = run_driver(["bastion", "-in", rp, "-out", bt, "-store", "inmem", "-embed", "id", "-seed", str(seed), "-workers", str(NCPU), "-dir", work.sub("db"),
+                        "-fuzz", "6" if tier == "quick" else "40"])
+    rep.notes.append(o.strip())
+    bevents = read_ndjson(bt)
+    bf = []
+    blines = open(bt).read().splitlines(True)
+    start = 0
+    while start < len(blines):
+        end = min(len(blines), start + 120000)
+        while end < len(blines) and not blines[end].startswith('{"e":"reset"'):
+            end += 1
+        cp = work.path("fz-chunk.ndjson")
+        open(cp, "w").writelines(blines[start:end])
+        for f in cb.bastion_judge(work, rep, c, cp, name="judge-fuzz"):
+            f[3] += start
+            bf.append(f)
+        os.remove(cp)
+        start = end
+    seqfam.settle(rep, "C19", bf, bevents, c)
+    cyc = [e for e in events if e["e"] == "cycle"]
+    posts = [e for e in bevents if e["e"] == "post"]
+    rep.cov["evaluations"] = len(cyc) + len(posts)
+    rep.cov["traces_validated_against_impl"] = len(scens) + len(runs) + 1
+    rep.cov["distinct_nontrivial"] = len({(e["comp"], e["wit"], e["cp"], e["data"]) for e in cyc if e["comp"].startswith("feeder")}) + len({(e["kind"], e["status"], e["conc"]) for e in posts})
+    rep.cov["feeder_cycles"] = {"total": sum(1 for e in cyc if e["comp"].startswith("feeder")),
+                                "outcomes": {k: sum(1 for e in cyc if e["comp"].startswith("feeder") and e["outcome"] == k) for k in sorted({e["outcome"] for e in cyc})}}
+    rep.cov["parser_inputs"] = sum(1 for e in cyc if not e["comp"].startswith("feeder"))
+    rep.cov["endpoint_requests"] = {"total": len(posts), "mutated": sum(1 for e in posts if e["kind"] == "fuzz"),
+                                    "statuses": {str(s): sum(1 for e in posts if e["status"] == s) for s in sorted({e["status"] for e in posts})}}
+    rep.cov["rule"] = ("feeders: TLC enumerates the hostile-server menu of Totality.tla (feeder type x witness state x 16 checkpoint classes incl. log-signed sizes 0, 2^62, 2^62+k, 2^63, 2^64-1 and root hashes of 0/5/33 bytes, "
+                       "bad signature, truncated, oversized, random, error statuses x 7 tile/proof answer classes); each runs ONE real feed cycle in a child process under a watchdog (20 s, then a second attempt with 40 s; the "
+                       "cycle's own context ends after 1.2 s), outcome must be result or error; parsers: seeded random / mutated byte strings to parseBody and Proof.Unmarshal; endpoint: TLC-emitted requests of every verdict and "
+                       "body class plus seeded byte-level mutations of each, every answer must be a documented status (a panic is recorded as status -1); distinct = distinct hostile scenarios + distinct (kind, status, size) of endpoint requests")
+    rep.cov["exhaustive"] = False
+    for e in cyc[:2] + posts[:1]:
+        rep.sample(e)
+    rep.assumptions += ["byte-level input diversity comes from seeded generators, not from TLC: the level claimed is exploration",
+                        "a hang is reported only after two attempts whose deadlines are 16x and 33x the cycle's own context timeout"]
+    return rep.finish()
+
+
+CHECKS["C19"] = c19
